@@ -71,11 +71,17 @@ class Check:
         for o in self.obligations:
             counts[o["rule"]] = counts.get(o["rule"], 0) + 1
         has_viol = set(o["rule"] for o in self.obligations if not o["ok"])
+        broken = list(core.BROKEN)
         for rid, fl in self.floors.items():
             # a rule that already reports a violation is not vacuous: report the violation rather than the shortfall
             if counts.get(rid, 0) < fl and rid not in has_viol:
-                raise core.AnalysisBroken("rule %s matched %d instances, floor is %d (anchor moved or rule lost its target)"
-                                          % (rid, counts.get(rid, 0), fl))
+                broken.append("rule %s matched %d instances, floor is %d (anchor moved or rule lost its target)" % (rid, counts.get(rid, 0), fl))
+        if broken and not has_viol:
+            raise core.AnalysisBroken("; ".join(broken[:4]))
+        for b in broken:
+            # rules that did run report violations on this tree: those are what the check says; the rules that could not be applied are listed
+            print("NOT-APPLIED: %s" % b)
+        self.extra["rules_not_applied"] = broken
         known = [k for k in load_known() if k["property"] == self.prop]
         viol = [o for o in self.obligations if not o["ok"]]
         # dedupe by identity
